@@ -79,8 +79,9 @@ Record job := mkJob {
   j_consumed : N; j_csize : N; j_err : bool;
   j_dst : bool;                 (* dstBuff.start != NULL *)
   j_first : bool; j_last : bool; j_ckneed : bool; j_flushed : N;
+  j_done : bool;                (* jobCompleted: set by the worker in its last critical section (fix F31) *)
   j_abs : N; j_lap : N }.       (* ghost *)
-Definition job0 := mkJob 0 0 0 0 0 0 0 false false false false false 0 0 0.
+Definition job0 := mkJob 0 0 0 0 0 0 0 false false false false false 0 false 0 0.
 
 Record mtc := mkMt {
   done : N; next : N; ready : bool; ended : bool; alldone : bool;
@@ -142,9 +143,7 @@ Record ghost := mkG {
   g_out : list (N * N * N);     (* flush log: (job id, offset in the job's output, length) *)
   g_fin : list (N * N);         (* (job id, total compressed size) of every fully flushed job, in order *)
   g_ck : list (N * list (N * N * N));     (* checksum appended: (job id, serial log at that time) *)
-  g_bad : bool;
-  g_misuse : bool }.            (* API contract broken by the program: new input offered after the frame was ended by ZSTD_e_end *)               (* ZSTDMT_waitForAllJobsCompleted went past an EMPTY posted job (consumed = src.size = 0 from the start):
-                                   its worker may still be running - finding "C11-empty-job-not-awaited"; theorems assume it stays false *)
+  g_misuse : bool }.            (* API contract broken by the program: new input offered after the frame was ended by ZSTD_e_end *)
 
 Record state := mkS { mt : mtc; jobs : list job; sr : ser; pl : pools; cl : cloc; ws : list wloc; gh : ghost }.
 
@@ -179,13 +178,16 @@ Definition set_w (t : nat) w s := set_ws (upd t w (ws s)) s.
 
 Definition j_upd_work (consumed csize : N) (err : bool) j :=
   mkJob (j_id j) (j_src j) (j_size j) (j_pstart j) (j_psize j) consumed csize err (j_dst j)
-        (j_first j) (j_last j) (j_ckneed j) (j_flushed j) (j_abs j) (j_lap j).
+        (j_first j) (j_last j) (j_ckneed j) (j_flushed j) (j_done j) (j_abs j) (j_lap j).
+Definition j_set_done j :=
+  mkJob (j_id j) (j_src j) (j_size j) (j_pstart j) (j_psize j) (j_consumed j) (j_csize j) (j_err j) (j_dst j)
+        (j_first j) (j_last j) (j_ckneed j) (j_flushed j) true (j_abs j) (j_lap j).
 Definition j_set_dst d j :=
   mkJob (j_id j) (j_src j) (j_size j) (j_pstart j) (j_psize j) (j_consumed j) (j_csize j) (j_err j) d
-        (j_first j) (j_last j) (j_ckneed j) (j_flushed j) (j_abs j) (j_lap j).
+        (j_first j) (j_last j) (j_ckneed j) (j_flushed j) (j_done j) (j_abs j) (j_lap j).
 Definition j_upd_flush (csize : N) (ck : bool) (fl : N) j :=
   mkJob (j_id j) (j_src j) (j_size j) (j_pstart j) (j_psize j) (j_consumed j) csize (j_err j) (j_dst j)
-        (j_first j) (j_last j) ck fl (j_abs j) (j_lap j).
+        (j_first j) (j_last j) ck fl (j_done j) (j_abs j) (j_lap j).
 
 (* mtctx fields *)
 Definition mt_ring d n r e a m :=
@@ -275,7 +277,7 @@ Definition prepare_job (cfg : config) (s : state) (srcSize : N) (e2 : endop) : s
   let k := slot cfg (next m) in
   let endf := match e2 with EEnd => true | _ => false end in
   let j := mkJob (next m) (istart m) srcSize (pstart m) (psize m) 0 0 false false
-                 (next m =? 0) endf (cksum m && endf && (0 <? next m)) 0 (iabs m) (lap m) in
+                 (next m =? 0) endf (cksum m && endf && (0 <? next m)) 0 false (iabs m) (lap m) in
   let npz := if endf then 0 else N.min srcSize (ptarget m) in
   let nps := if endf then 0 else istart m + srcSize - npz in
   let m1 := mt_buf (rpos m + srcSize) false 0 0 nps npz (lap m) (iabs m + srcSize) m in
@@ -289,7 +291,9 @@ Definition create_job (cfg : config) (s : state) (e2 : endop) : state :=
   else if ready m then set_cpc CTryAdd s
   else let srcSize := ifill m in
        let s1 := prepare_job cfg s srcSize e2 in
-       if (srcSize =? 0) && (0 <? next m) then set_cpc CGetBuf s1 else set_cpc CTryAdd s1.
+       if (srcSize =? 0) && (0 <? next m)
+       then let k := slot cfg (next m) in set_cpc CGetBuf (set_job k (j_set_done (getj s1 k)) s1)   (* ZSTDMT_writeLastEmptyBlock: no worker involved *)
+       else set_cpc CTryAdd s1.
 
 Definition create_phase (cfg : config) (s : state) : state :=
   let m := mt s in let c := cl s in
@@ -396,7 +400,7 @@ Fixpoint start_ops (cfg : config) (s : state) (ops : list cop) : state :=
   | OpCS e i o :: r =>
       let c := cl s in
       let g := gh s in
-      let s0 := if ended (mt s) && (0 <? i) then set_gh (mkG (g_out g) (g_fin g) (g_ck g) (g_bad g) true) s else s in
+      let s0 := if ended (mt s) && (0 <? i) then set_gh (mkG (g_out g) (g_fin g) (g_ck g) true) s else s in
       let s1 := set_cl (mkCl (c_pc c) r e e false i o i o (c_use c) (c_fp c) (c_res c)) s0 in
       if ended (mt s) && is_continue e then    (* stage_wrong: the session is reset, the next call must re-initialise *)
         match r with
@@ -451,7 +455,7 @@ Definition complete_job (cfg : config) (s : state) : state :=
   let m := mt s in let k := slot cfg (done m) in let j := getj s k in
   let g := gh s in
   let s1 := set_job k (j_set_dst false (j_upd_flush 0 (j_ckneed j) (j_flushed j) j)) s in
-  let s2 := set_gh (mkG (g_out g) (g_fin g ++ [(j_id j, j_csize j)]) (g_ck g) (g_bad g) (g_misuse g)) s1 in
+  let s2 := set_gh (mkG (g_out g) (g_fin g ++ [(j_id j, j_csize j)]) (g_ck g) (g_misuse g)) s1 in
   flush_return cfg (set_mt (mt_ring (done m + 1) (next m) (ready m) (ended m) (alldone m) m) s2).
 
 (* ZSTDMT_flushProduced after the wait loop *)
@@ -463,11 +467,11 @@ Definition flush_body (cfg : config) (s : state) : state :=
     let ck := fin && j_ckneed j in
     let cs := if ck then j_csize j + 4 else j_csize j in
     let g := gh s in
-    let g1 := if ck then mkG (g_out g) (g_fin g) (g_ck g ++ [(j_id j, s_log (sr s))]) (g_bad g) (g_misuse g) else g in
+    let g1 := if ck then mkG (g_out g) (g_fin g) (g_ck g ++ [(j_id j, s_log (sr s))]) (g_misuse g) else g in
     if 0 <? cs then
       let c := cl s in
       let tf := N.min (cs - j_flushed j) (c_out c) in
-      let g2 := if 0 <? tf then mkG (g_out g1 ++ [(j_id j, j_flushed j, tf)]) (g_fin g1) (g_ck g1) (g_bad g1) (g_misuse g1) else g1 in
+      let g2 := if 0 <? tf then mkG (g_out g1 ++ [(j_id j, j_flushed j, tf)]) (g_fin g1) (g_ck g1) (g_misuse g1) else g1 in
       let fl := j_flushed j + tf in
       let j1 := j_upd_flush cs (if ck then false else j_ckneed j) fl j in
       let s1 := set_gh g2 (set_cl (cl_io (c_e2 c) (c_fwd c) (c_in c) (c_out c - tf) c) (set_job k j1 s)) in
@@ -546,7 +550,7 @@ Definition caller_step (cfg : config) (w : nat) (s : state) : option state :=
   | CGetBuf =>
       let k := slot cfg (next m) in let jb := getj s k in
       let ok := (0 <? bp_nb p) || negb (err_is (job_pay cfg s jb) ErrBuf) in
-      let jb1 := if ok then mkJob (j_id jb) 0 0 (j_pstart jb) (j_psize jb) 0 3 false true (j_first jb) (j_last jb) (j_ckneed jb) 0 (j_abs jb) (j_lap jb)
+      let jb1 := if ok then mkJob (j_id jb) 0 0 (j_pstart jb) (j_psize jb) 0 3 false true (j_first jb) (j_last jb) (j_ckneed jb) 0 (j_done jb) (j_abs jb) (j_lap jb)
                  else j_upd_work (j_consumed jb) (j_csize jb) true jb in
       Some (set_cpc CFlush (set_mt (mt_ring (done m) (next m + 1) (ready m) (ended m) (alldone m) m)
                                    (set_job k jb1 (set_pl (pl_bp (take (bp_nb p)) p) s))))
@@ -563,11 +567,8 @@ Definition caller_step (cfg : config) (w : nat) (s : state) : option state :=
   | CRelBuf => Some (complete_job cfg (set_pl (pl_bp (give (bp_nb p) (bp_tot p)) p) s))
   | CWait i =>
       let jb := jslot cfg s (done m) in
-      if j_consumed jb <? j_size jb then Some (set_cpc (CWaitZ i) s)
-      else
-        let g := gh s in
-        let s0 := if (j_size jb =? 0) && j_first jb then set_gh (mkG (g_out g) (g_fin g) (g_ck g) true (g_misuse g)) s else s in
-        Some (wait_all cfg i (set_mt (mt_ring (done m + 1) (next m) (ready m) (ended m) (alldone m) m) s0))
+      if negb (j_done jb) then Some (set_cpc (CWaitZ i) s)
+      else Some (wait_all cfg i (set_mt (mt_ring (done m + 1) (next m) (ready m) (ended m) (alldone m) m) s))
   | CRelAll i k =>
       Some (rel_scan cfg i (zero_slot k (set_pl (pl_bp (give (bp_nb p) (bp_tot p)) p) s)) (S k) (length (jobs s)))
   | CInitBuf =>
@@ -636,7 +637,7 @@ Definition worker_step (cfg : config) (t : nat) (s : state) : option state :=
         Some (set_w t (if w_cctx w then w_set_pc WRelCCtx w else w_set_pc WReport w) (set_pl (pl_sp (give (sp_nb p) (sp_tot p)) (sp_on p) p) s))
     | WRelCCtx => Some (set_w t (w_set_pc WReport w) (set_pl (pl_cp (give (cp_av p) (cp_tot p)) p) s))
     | WReport =>
-        let jb1 := j_upd_work (j_size jb) (if j_err jb then j_csize jb else j_csize jb + w_lastc w) (j_err jb) jb in
+        let jb1 := j_set_done (j_upd_work (j_size jb) (if j_err jb then j_csize jb else j_csize jb + w_lastc w) (j_err jb) jb) in
         Some (set_w t (w_set_pc WFinish w) (wake_caller_job cfg k (set_job k jb1 s)))
     | WFinish => Some (set_w t (w_set_pc WIdle w) (set_pl (pl_busy (Nat.pred (busy p)) p) s))
     end
@@ -660,7 +661,7 @@ Definition init (cfg : config) (ops : list cop) : state :=
                 (mkPl None 0 0 (2 * n + 3) 1 n 0 n false)
                 (mkCl CDone [] EContinue EContinue false 0 0 0 0 (0, 0) fp0 [])
                 (repeat w0 (c_nbw cfg))
-                (mkG [] [] [] false false) in
+                (mkG [] [] [] false) in
   start_ops cfg s0 ops.
 
 (* ------------------------------------------------------------------ *)
